@@ -56,8 +56,10 @@ class Call:
         self.pre = None
 
 
-def wrap(owner, name, post=None, pre=None, tag=None, is_method=True):
-    """Install a monitor.  Idempotent per (owner, name, tag)."""
+def wrap(owner, name, post=None, pre=None, tag=None, is_method=True, outermost_only=False):
+    """Install a monitor.  Idempotent per (owner, name, tag).
+    outermost_only: observe a call only when no other monitored call of the same tag is active
+    (state snapshots around entry points: nested calls are part of the observed call)."""
     key = (id(owner), name, tag)
     if key in _installed:
         return
@@ -70,6 +72,20 @@ def wrap(owner, name, post=None, pre=None, tag=None, is_method=True):
         c = current()
         if c is None or _depth() > 0:
             return orig(*args, **kwargs)
+        if outermost_only:
+            active = getattr(_state, "active", None)
+            if active is None:
+                active = _state.active = {}
+            if active.get(tag, 0) > 0:
+                return orig(*args, **kwargs)
+            active[tag] = active.get(tag, 0) + 1
+            try:
+                return _observed(args, kwargs)
+            finally:
+                active[tag] -= 1
+        return _observed(args, kwargs)
+
+    def _observed(args, kwargs):
         if is_method and not static and isinstance(owner, type):
             call = Call(owner, name, args[0], args[1:], kwargs)
         else:
